@@ -54,6 +54,9 @@ func main() {
 		if len(args) > 2 {
 			tier = args[2]
 		}
+		if args[1] == "all" {
+			os.Exit(runCheckAll(*repo, *verif, tier))
+		}
 		os.Exit(runCheck(*repo, *verif, args[1], tier))
 	case "expect":
 		os.Exit(runExpect(*repo, *verif))
